@@ -390,6 +390,13 @@ type Env struct {
 	// field access on object references: (ref term, field) -> term
 	FieldOf func(x Term, field string) (Term, bool)
 	Defs    map[string]*SpecDef
+	Sorts   map[string]*Sort   // named sorts (type parameters)
+	Funcs   map[string]FuncSym // uninterpreted function symbols visible to the contract ($key)
+}
+
+type FuncSym struct {
+	Name string
+	Res  *Sort
 }
 
 type SpecDef struct {
@@ -400,7 +407,7 @@ type SpecDef struct {
 }
 
 func (env *Env) child() *Env {
-	n := &Env{Vars: map[string]Term{}, Lookup: env.Lookup, Old: env.Old, FieldOf: env.FieldOf, Defs: env.Defs}
+	n := &Env{Vars: map[string]Term{}, Lookup: env.Lookup, Old: env.Old, FieldOf: env.FieldOf, Defs: env.Defs, Sorts: env.Sorts, Funcs: env.Funcs}
 	for k, v := range env.Vars {
 		n.Vars[k] = v
 	}
@@ -415,6 +422,15 @@ func (env *Env) get(name string) (Term, bool) {
 		return env.Lookup(name)
 	}
 	return Term{}, false
+}
+
+func (env *Env) sortByName(n string) *Sort {
+	if env != nil && env.Sorts != nil {
+		if s, ok := env.Sorts[n]; ok {
+			return s
+		}
+	}
+	return sortByName(n)
 }
 
 func sortByName(n string) *Sort {
@@ -619,7 +635,7 @@ func toSMT(e Expr, env *Env) Term {
 		c := env.child()
 		var binders []string
 		for i, v := range e.Vars {
-			s := sortByName(e.Sorts[i])
+			s := env.sortByName(e.Sorts[i])
 			name := "q!" + v
 			c.Vars[v] = Term{S: name, Sort: s}
 			binders = append(binders, "("+name+" "+s.SMT()+")")
@@ -823,6 +839,9 @@ func callSMT(e *ECall, env *Env) Term {
 		}
 		s := a[0].S
 		return T(SBool, "(forall ((q!i Int) (q!j Int)) (=> (and (<= 0 q!i) (< q!i q!j) (< q!j (seq.len %s))) (not (= (select (seq.el %s) q!i) (select (seq.el %s) q!j)))))", s, s, s)
+	}
+	if fsym, ok := env.Funcs[e.Fn]; ok {
+		return T(fsym.Res, "(%s %s)", fsym.Name, joinTerms(a))
 	}
 	if d, ok := env.Defs[e.Fn]; ok {
 		if len(d.Params) != len(a) {
